@@ -63,7 +63,42 @@ func checkC13(c *Check) {
 				}
 			}
 		}
-		c.Expect("1/reset-loop", 5)
+		// host side: Reset always asks the container — every nil return of the host's Reset has sent the reset command
+	// and received its acknowledgement (a Reset elided on a host-side "unused" belief leaves files behind whenever
+	// that belief is wrong, e.g. after an Execve that failed after the program already ran)
+	if hreset := p.Func("container", "container.Reset"); hreset == nil {
+		c.Undecided("1/reset-loop", "container.(host)Reset", "-", "function not found")
+	} else {
+		for _, step := range []string{"sendCmd", "recvAckReply"} {
+			isStep := func(in ssa.Instruction) bool {
+				ci, ok := in.(ssa.CallInstruction)
+				if !ok {
+					return false
+				}
+				_, callee := calleeOf(ci)
+				if callee == nil {
+					return false
+				}
+				if callee.Name() == step {
+					return true
+				}
+				// through a helper of the package (e.g. a shared send-and-await-ack function)
+				return inModule(callee) && callee.Pkg == hreset.Pkg && reachesCall(callee, 1, func(c2 ssa.CallInstruction) bool { _, c3 := calleeOf(c2); return c3 != nil && c3.Name() == step })
+			}
+			bad := ""
+			for _, b := range hreset.Blocks {
+				ret, ok := b.Instrs[len(b.Instrs)-1].(*ssa.Return)
+				if !ok || !isNilConst(retVal(ret, 0)) {
+					continue
+				}
+				if skips, trail := (pathQuery{fn: hreset, target: func(in ssa.Instruction) bool { return in == ssa.Instruction(ret) }, stop: isStep}).find(); skips {
+					bad = p.trail(trail)
+				}
+			}
+			c.Cond(bad == "", "1/reset-loop", "container.(host)Reset:always-"+step, p.Pos(hreset.Pos()), "success is returned only after "+step, "the host's Reset can report success without "+step+" ("+bad+"): the container is not asked to clean up")
+		}
+	}
+	c.Expect("1/reset-loop", 7)
 	}
 	// ---------- 2: removeContents ----------
 	if clearFn == nil {
@@ -235,7 +270,7 @@ func checkMemfdSeal(c *Check) {
 			if !ok {
 				continue
 			}
-			if !isNilConst(ret.Results[0]) {
+			if !isNilConst(retVal(ret, 0)) {
 				// named results: the value is read from the result slot; an error return stored nil there in this block
 				u, isLoad := ret.Results[0].(*ssa.UnOp)
 				storedNil := false
@@ -302,7 +337,34 @@ func checkMemfdSeal(c *Check) {
 			c.Fail("3/seal", key+":error-closes", pos, "cannot find the error returns that follow the creation of the memfd")
 		}
 	}
-	c.Expect("3/seal", 8)
+	// the content of the sealed file is exactly what was copied: between creation and return the file is touched
+	// only through ReadFrom (the copy), Fd (for the seal), Seek and Close
+	if newCall != nil {
+		var fileVal ssa.Value
+		if v, ok := newCall.(ssa.Value); ok && v.Referrers() != nil {
+			for _, r := range *v.Referrers() {
+				if ex, ok := r.(*ssa.Extract); ok && ex.Index == 0 {
+					fileVal = ex
+				}
+			}
+		}
+		var other []string
+		for _, ci := range callInstrs(dup) {
+			args := ci.Common().Args
+			if len(args) == 0 || fileVal == nil || stripConv(args[0]) != fileVal {
+				continue
+			}
+			nm, _ := calleeOf(ci)
+			short := nm[strings.LastIndex(nm, ".")+1:]
+			switch short {
+			case "ReadFrom", "Fd", "Seek", "Close":
+			default:
+				other = append(other, short+"@"+p.Pos(ci.Pos()))
+			}
+		}
+		c.Cond(fileVal != nil && len(other) == 0, "3/seal", key+":only-the-copy-writes", pos, "nothing but the copy changes the file before it is sealed", "the memfd is also modified by "+strings.Join(other, ", ")+" before sealing: the sealed content is not exactly the bytes supplied")
+	}
+	c.Expect("3/seal", 9)
 }
 
 // directErrOf: block b is the immediate error branch of call ci.
